@@ -475,6 +475,26 @@ func (st *State) specBuiltin(env *Env, e *Expr) (SVal, types.Type, bool) {
 				}
 			}
 		}
+		if len(parts) == 3 && parts[0] == "ub" {
+			// ub.<table>.<col>$op(b) / ub.<table>.<col>(b): what update builder b carries for the column
+			if t := st.e.ent.Tables[parts[1]]; t != nil && len(e.Args) == 1 {
+				a, _ := st.elab(env, e.Args[0])
+				eh, ok := a.(*EntH)
+				if !ok {
+					st.unsupported("ub.%s.%s: argument is not an update builder", parts[1], parts[2])
+				}
+				r := IntLit(int64(eh.ID))
+				cn := strings.TrimSuffix(parts[2], "$op")
+				c := t.ByName[cn]
+				if c == nil {
+					st.unsupported("no column %s in table %s", cn, parts[1])
+				}
+				if strings.HasSuffix(parts[2], "$op") {
+					return Select(st.heapGet(h, ubOpKey(t, cn), ArrS(SInt, SInt), false), r), tInt, true
+				}
+				return Select(st.heapGet(h, ubKey(t, cn), ArrS(SInt, c.Sort), false), r), sortType(c.Sort), true
+			}
+		}
 		if len(parts) == 3 && parts[0] == "cb" {
 			if t := st.e.ent.Tables[parts[1]]; t != nil && len(e.Args) == 1 {
 				a, _ := st.elab(env, e.Args[0])
